@@ -474,6 +474,8 @@ func c14case(ctx *vc.Ctx, scn *vc.Scenario, ops []c14op, clean bool, image map[s
 	}
 	if count {
 		scn.Case(out, old > 0)
+		scn.Transitions += len(ops) + len(injs)
+		scn.AddState(fmt.Sprintf("%s|%s|%s|%d|%d|%d", mode, route, rec, old, fresh, deliveredN))
 	}
 	return out
 }
